@@ -6,9 +6,14 @@ package main
 // or not at all. Emitted as `Pandora.Gen.Locks.table : List C11LockRow`; Props/C11 proves `∀ row ∈ table, guarded`
 // by `decide` and uses it as the hypothesis under which the objects may be classed `sharedSync`.
 //
-// Lock tracking is deliberately simple (source order inside one function body, Lock/Unlock only as top-level
-// statements, `defer X.Unlock()` holds to the end); a function that locks in any other shape is a translation
-// error (gen exits non-zero), never a silent default.
+// Lock tracking is a small abstract interpretation of one function body: the set of held mutexes is threaded through
+// the statements in source order; `defer X.Unlock()` holds to the end; a nested block (if/for/switch/select body)
+// must leave the set unchanged unless it ends in `return` (`if c { mx.Unlock(); return }`). Any other shape is a
+// translation error (gen exits non-zero), never a silent default. Function literals are scanned with the set held
+// where they are written; `go` statements with the empty set.
+//
+// Every row carries a numeric object id (`oid`, the rank of the object name among the table's object names) so that
+// the Lean side can reason about objects without comparing strings.
 
 import (
 	"fmt"
@@ -26,11 +31,15 @@ type lockTarget struct {
 	vars    []string // package variables
 	setup   []string // methods that only run before instances start (their writes do not unfreeze a field)
 	methods []string // if set: only these methods are instance-facing
+	// randVars: additionally track EVERY package-level variable whose type is *math/rand.Rand or math/rand.Rand
+	// (a rand.Rand is not safe for concurrent use; template functions and string helpers run in every instance)
+	randVars bool
 }
 
 var lockTargets = []lockTarget{
 	{pkg: "lib/mp", typ: "NextIterator"},
-	{pkg: "lib/str", vars: []string{"randSource"}},
+	{pkg: "lib/str", vars: []string{"randSource"}, randVars: true},
+	{pkg: "components/providers/scenario/templater", randVars: true},
 	{pkg: "components/guns/grpc/scenario", typ: "TextTemplater"},
 	{pkg: "components/providers/scenario/http/templater", typ: "TextTemplater"},
 	{pkg: "components/providers/scenario/http/templater", typ: "HTMLTemplater"},
@@ -39,6 +48,13 @@ var lockTargets = []lockTarget{
 	{pkg: "components/providers/grpc", typ: "Provider", methods: []string{"Acquire", "Release"}},
 	{pkg: "components/providers/scenario", typ: "Provider", methods: []string{"Acquire", "Release"}},
 	{pkg: "core/aggregator/netsample", vars: []string{"samplePool"}},
+	{pkg: "components/providers/http/provider", typ: "Provider", methods: []string{"Acquire", "Release"}},
+	{pkg: "components/providers/http/decoders", typ: "uriDecoder", methods: []string{"Release"}},
+	{pkg: "components/providers/http/decoders", typ: "uripostDecoder", methods: []string{"Release"}},
+	{pkg: "components/providers/http/decoders", typ: "rawDecoder", methods: []string{"Release"}},
+	{pkg: "components/providers/http/decoders", typ: "jsonlineDecoder", methods: []string{"Release"}},
+	{pkg: "core/provider", typ: "AmmoQueue", methods: []string{"Acquire", "Release"}},
+	{pkg: "lib/netutil", typ: "SimpleDNSCache"},
 }
 
 func init() {
@@ -220,51 +236,135 @@ func derefType(t types.Type) types.Type {
 	return t
 }
 
-func (s *lockScan) nestedLockCheck(n ast.Node) {
-	ast.Inspect(n, func(m ast.Node) bool {
-		if es, ok := m.(*ast.ExprStmt); ok {
-			if name, op := s.lockCall(es.X); name != "" {
-				s.fail(m, "%s.%s() inside a nested block of %s (only top-level lock statements are understood)", name, op, s.fn)
+// scanStmts interprets a statement list with the set of mutexes held on entry; returns the set held at the end and
+// whether the list always ends in a return. Lock/Unlock calls are understood as statements at any nesting depth; a
+// nested block must leave the held set as it found it unless it ends in `return` (e.g. `if c { mx.Unlock(); return }`).
+func (s *lockScan) scanStmts(list []ast.Stmt, held []string) ([]string, bool) {
+	for _, st := range list {
+		var term bool
+		held, term = s.scanStmt(st, held)
+		if term {
+			return held, true
+		}
+	}
+	return held, false
+}
+
+func sameHeld(a, b []string) bool {
+	if len(a) != len(b) {
+		return false
+	}
+	for i := range a {
+		if a[i] != b[i] {
+			return false
+		}
+	}
+	return true
+}
+
+func (s *lockScan) exprs(held []string, ns ...ast.Node) {
+	s.held = held
+	for _, n := range ns {
+		if n == nil {
+			continue
+		}
+		s.scanExprs(n)
+	}
+}
+
+// nested: a block inside a compound statement; must preserve the held set unless it terminates
+func (s *lockScan) nested(at ast.Node, list []ast.Stmt, held []string) {
+	out, term := s.scanStmts(list, append([]string(nil), held...))
+	if !term && !sameHeld(out, held) {
+		s.fail(at, "nested block of %s changes the set of held mutexes %v -> %v without returning", s.fn, held, out)
+	}
+}
+
+func (s *lockScan) scanStmt(st ast.Stmt, held []string) ([]string, bool) {
+	switch x := st.(type) {
+	case *ast.ExprStmt:
+		if name, op := s.lockCall(x.X); name != "" {
+			if op == "Lock" || op == "RLock" {
+				return append(append([]string(nil), held...), name), false
 			}
+			var keep []string
+			for _, h := range held {
+				if h != name {
+					keep = append(keep, h)
+				}
+			}
+			return keep, false
 		}
-		if _, ok := m.(*ast.FuncLit); ok {
-			return true
+		s.exprs(held, x)
+	case *ast.DeferStmt:
+		if name, op := s.lockCall(x.Call); name != "" && (op == "Unlock" || op == "RUnlock") {
+			return held, false // held until the function returns
 		}
-		return true
-	})
+		s.exprs(held, x)
+	case *ast.GoStmt:
+		s.exprs(nil, x) // a new goroutine holds nothing
+	case *ast.ReturnStmt:
+		s.exprs(held, x)
+		return held, true
+	case *ast.BlockStmt:
+		return s.scanStmts(x.List, held)
+	case *ast.LabeledStmt:
+		return s.scanStmt(x.Stmt, held)
+	case *ast.IfStmt:
+		if x.Init != nil {
+			held, _ = s.scanStmt(x.Init, held)
+		}
+		s.exprs(held, x.Cond)
+		s.nested(x, x.Body.List, held)
+		if x.Else != nil {
+			s.nested(x, []ast.Stmt{x.Else}, held)
+		}
+	case *ast.ForStmt:
+		if x.Init != nil {
+			held, _ = s.scanStmt(x.Init, held)
+		}
+		s.exprs(held, x.Cond, x.Post)
+		s.nested(x, x.Body.List, held)
+	case *ast.RangeStmt:
+		s.exprs(held, x.Key, x.Value, x.X)
+		s.nested(x, x.Body.List, held)
+	case *ast.SwitchStmt:
+		if x.Init != nil {
+			held, _ = s.scanStmt(x.Init, held)
+		}
+		s.exprs(held, x.Tag)
+		for _, c := range x.Body.List {
+			cc := c.(*ast.CaseClause)
+			for _, e := range cc.List {
+				s.exprs(held, e)
+			}
+			s.nested(cc, cc.Body, held)
+		}
+	case *ast.TypeSwitchStmt:
+		if x.Init != nil {
+			held, _ = s.scanStmt(x.Init, held)
+		}
+		s.exprs(held, x.Assign)
+		for _, c := range x.Body.List {
+			cc := c.(*ast.CaseClause)
+			s.nested(cc, cc.Body, held)
+		}
+	case *ast.SelectStmt:
+		for _, c := range x.Body.List {
+			cc := c.(*ast.CommClause)
+			if cc.Comm != nil {
+				s.exprs(held, cc.Comm)
+			}
+			s.nested(cc, cc.Body, held)
+		}
+	default:
+		s.exprs(held, st)
+	}
+	return held, false
 }
 
 func (s *lockScan) scanBody(body *ast.BlockStmt) {
-	s.held = nil
-	for _, st := range body.List {
-		switch x := st.(type) {
-		case *ast.ExprStmt:
-			if name, op := s.lockCall(x.X); name != "" {
-				if op == "Lock" || op == "RLock" {
-					s.held = append(s.held, name)
-				} else {
-					var keep []string
-					for _, h := range s.held {
-						if h != name {
-							keep = append(keep, h)
-						}
-					}
-					s.held = keep
-				}
-				continue
-			}
-		case *ast.DeferStmt:
-			if name, op := s.lockCall(x.Call); name != "" && (op == "Unlock" || op == "RUnlock") {
-				continue // held until the function returns
-			}
-		}
-		switch st.(type) {
-		case *ast.ExprStmt, *ast.AssignStmt, *ast.ReturnStmt, *ast.IncDecStmt, *ast.DeclStmt, *ast.DeferStmt, *ast.GoStmt, *ast.SendStmt:
-		default:
-			s.nestedLockCheck(st)
-		}
-		s.scanExprs(st)
-	}
+	s.scanStmts(body.List, nil)
 }
 
 func contains(xs []string, x string) bool {
@@ -309,6 +409,13 @@ func locksExtra(t *tr) string {
 				continue
 			}
 			s.vars[obj] = v
+		}
+		if tgt.randVars {
+			for _, name := range p.Types.Scope().Names() {
+				if v, ok := p.Types.Scope().Lookup(name).(*types.Var); ok && isRandType(derefType(v.Type())) {
+					s.vars[v] = name
+				}
+			}
 		}
 		// pass 1: collect accesses; remember which fields are written outside set-up
 		var rows []lockRow
@@ -364,17 +471,39 @@ func locksExtra(t *tr) string {
 		}
 		all = append(all, rows...)
 	}
-	// canonical order, duplicates removed
+	// canonical order, duplicates removed; object ids = rank of the object name
+	names := map[string]bool{}
+	for _, r := range all {
+		names[r.obj] = true
+	}
+	var sortedNames []string
+	for n := range names {
+		sortedNames = append(sortedNames, n)
+	}
+	sort.Strings(sortedNames)
+	oid := map[string]int{}
+	for i, n := range sortedNames {
+		oid[n] = i
+	}
 	seen := map[string]bool{}
 	var lines []string
 	for _, r := range all {
-		l := fmt.Sprintf("  ⟨%q, %q, %v, %s⟩", r.obj, r.method, r.write, r.guard)
+		l := fmt.Sprintf("  ⟨%03d, %q, %q, %v, %s⟩", oid[r.obj], r.obj, r.method, r.write, r.guard)
 		if !seen[l] {
 			seen[l] = true
 			lines = append(lines, l)
 		}
 	}
 	sort.Strings(lines)
+	for i := range lines {
+		// "⟨007, " -> "⟨7, " (the zero padding is only there for the sort)
+		j := strings.Index(lines[i], "⟨") + len("⟨")
+		k := j
+		for k < j+2 && lines[i][k] == '0' {
+			k++
+		}
+		lines[i] = lines[i][:j] + lines[i][k:]
+	}
 	var b strings.Builder
 	b.WriteString("/-- regenerated lock facts: every access of an instance-facing function to a field / package variable of the\n")
 	b.WriteString("objects listed in gen/area_locks.go, with the protection found in the source -/\n")
